@@ -9,6 +9,10 @@ import time
 import traceback
 
 VERIF = os.path.dirname(os.path.dirname(os.path.abspath(__file__)))
+# KERNPY_REPO=<dir> points the whole machinery (ast extraction AND native replays) at another copy of the repository
+# (used by ./check selftest and for seeded changes in scratch worktrees); default /repo.
+if os.environ.get('KERNPY_REPO'):
+    sys.path.insert(0, os.environ['KERNPY_REPO'])
 
 
 def write_evidence(prop, evidence):
